@@ -19,7 +19,8 @@
   * `SizedReader.readline(size)`: the `while size is None or size > 0` loop whose `size` is never
     decremented (so `readline(n)`, n>0, returns a whole line however long), chunk size
     `min(size, bufsize)`, `data.find(b'\n')`, push-back of the remainder IN FRONT of the buffer and
-    `bytes_read -= len(remainder)`.
+    `bytes_read -= len(remainder)`, and `done = False` when the remainder is not empty (proposed fix
+    C04-multipart-chunked-done: `read` flags EOF as soon as the socket is drained).
   * `SizedReader.readlines(sizehint)`: the `min(sizehint, length - bytes_read)` adjustment when a
     length is declared, the `seen >= sizehint` test after each line.
   * `Entity.__next__`: `readline()`, empty → `StopIteration`.
@@ -153,7 +154,8 @@ def readlineLoop (cfg : Cfg) : Nat → St → Nat → Bytes → Res Bytes × St
       if data.isEmpty then (.ok acc, s1) else
       match splitNl data with
       | some (l, r) =>
-        (.ok (acc ++ l), { s1 with buffer := r ++ s1.buffer, bytesRead := s1.bytesRead - r.length })
+        (.ok (acc ++ l), { s1 with buffer := r ++ s1.buffer, bytesRead := s1.bytesRead - r.length,
+                                   done := if r.isEmpty then s1.done else false })
       | none => readlineLoop cfg fuel s1 chunk (acc ++ data)
     | (.err413, s1) => (.err413, s1)
     | (.fuel, s1) => (.fuel, s1)
